@@ -3,7 +3,7 @@
 usage: confirm_seed.py <prop> <mutant dir> [name]
 Checks: patch applies; project builds; full ctest passes WITH the change; demo fails with it and passes without it."""
 import json, os, shutil, subprocess, sys, time
-WT = "/var/tmp/wt_seed"
+WT = os.environ.get("SEED_WT", "/var/tmp/wt_seed")
 def sh(cmd, **kw):
     p = subprocess.run(cmd, shell=True, stdout=subprocess.PIPE, stderr=subprocess.STDOUT, text=True, **kw)
     return p.returncode, p.stdout
